@@ -102,13 +102,17 @@ def op_cmd_specs(op):
     return []
 
 
-def make_world(plan):
+def make_world(plan, units=None):
     world = World(plan["seed"], max_iterations=plan.get("max_iterations", 300_000))
     knobs = plan["knobs"]
     drv = plan["driver"]
     lat = Latency(world, knobs.get("latency", "nominal"), ADVERSARIAL[drv])
     line = BusLine()
-    bus = ScriptedBus(world, unit_outcomes(plan))
+    if units is not None:
+        from .busim import UnitBus
+        bus = UnitBus(world, units)
+    else:
+        bus = ScriptedBus(world, unit_outcomes(plan))
     if drv == "tridonic":
         dev = TridonicGW(world, bus, line, lat, quirk=knobs.get("quirk", False))
     elif drv == "hasseb":
@@ -310,7 +314,7 @@ def run(plan, hooks=None):
     """Execute a plan; returns a RunRecord.  Never raises for behaviour of the
     code under test (that is recorded); raises HarnessError for our own bugs."""
     hooks = hooks or {}
-    world, dev, bus, line = make_world(plan)
+    world, dev, bus, line = make_world(plan, units=hooks.get("units"))
     rr = RunRecord()
     rr.plan, rr.world, rr.dev, rr.bus, rr.line = plan, world, dev, bus, line
     rr.ops = {}
@@ -441,3 +445,31 @@ def snapshot(plan, driver):
                 s["q_info"] = p._queue_rx_info.qsize()
             s["rx_state"] = p._rx_state.name
     return s
+
+
+def run_stacked(driver, seed, units, gen_factory, knobs=None, progress=None):
+    """'Stacked' transport: the real packaged sequence runs through the real
+    asyncio driver (run_sequence: lock, driver-emitted EnableDeviceType,
+    send-twice flag) and a gateway model down to the unit models of busim.
+    Returns (SeqRun-like object, RunRecord)."""
+    from .busim import SeqRun
+    kn = {"latency": "nominal"}
+    kn.update(knobs or {})
+    plan = {"engine": "drvsim", "driver": driver, "seed": seed, "knobs": kn, "deadline_s": 36000,
+            "max_iterations": 3_000_000,
+            "callers": [{"id": "A", "start_us": 0, "ops": [{"kind": "libseq", "gap_us": 0}]}]}
+
+    async def libseq(world, drv, rec):
+        rec.gen = gen_factory()
+        return await drv.run_sequence(rec.gen, progress=(lambda p: None))
+
+    rr = run(plan, hooks={"libseq": libseq, "units": units})
+    rec = rr.ops["A.0"]
+    sr = SeqRun()
+    sr.status = {"ok": "return", "raised": "raise"}.get(rec.status, "cap")
+    sr.value, sr.exc = rec.result, rec.exc
+    sends = [s_ for s_ in rr.dev.sends if "value" in s_]
+    sr.frames = [(s_["bits"], s_["value"]) for s_ in sends]
+    sr.steps = len(sends)
+    sr.commands = []
+    return sr, rr
